@@ -11,7 +11,7 @@ pub struct C05 {
     children: Vec<(String, String)>,
 }
 
-pub const D_BOUND: usize = 320;
+pub const D_BOUND: usize = 240;
 const MAX_TEXT: usize = 64 * 1024;
 
 #[derive(Clone, Debug, PartialEq)]
@@ -27,6 +27,9 @@ pub enum Layer {
     WideInline(usize, usize),
     /// `n` flat statements of a kind in front of everything else (see `preamble`)
     Pre(usize, usize),
+    /// `n` array-of-tables headers, each one level below the previous (`[[a]]`, `[[a.a]]`, ...):
+    /// every level is an array and a table; the recipe's statement lands in the innermost element
+    AotChain(usize),
 }
 
 #[derive(Clone, Debug)]
@@ -71,6 +74,7 @@ impl Recipe {
                 Layer::WideArray(k, n) => s.push_str(&format!(";W{k}x{n}")),
                 Layer::WideInline(n, m) => s.push_str(&format!(";J{n}x{m}")),
                 Layer::Pre(k, n) => s.push_str(&format!(";P{k}x{n}")),
+                Layer::AotChain(n) => s.push_str(&format!(";C{n}")),
             }
         }
         s
@@ -101,6 +105,7 @@ impl Recipe {
                     let (a, b) = rest.split_once('x')?;
                     r.layers.push(Layer::Pre(a.parse().ok()?, b.parse().ok()?));
                 }
+                "C" => r.layers.push(Layer::AotChain(rest.parse().ok()?)),
                 _ => return None,
             }
         }
@@ -120,6 +125,7 @@ impl Recipe {
                 Layer::WideArray(_, n) => 10 * n + 4,
                 Layer::WideInline(n, m) => n * (2 * m + 10) + 8,
                 Layer::Pre(_, n) => 16 * n + 8,
+                Layer::AotChain(n) => n * n + 6 * n,
             };
         }
         n
@@ -129,6 +135,15 @@ impl Recipe {
         for l in &self.layers {
             if let Layer::Pre(kind, n) = l {
                 s.push_str(&preamble(*kind, *n));
+            }
+        }
+        for l in &self.layers {
+            if let Layer::AotChain(n) = l {
+                for i in 1..=*n {
+                    s.push_str("[[");
+                    s.push_str(&vec!["a"; i].join("."));
+                    s.push_str("]]\n");
+                }
             }
         }
         if let Some((aot, k)) = self.header {
@@ -182,7 +197,7 @@ impl Recipe {
                     }
                     close.insert_str(0, "\n]");
                 }
-                Layer::Pre(..) => {}
+                Layer::Pre(..) | Layer::AotChain(..) => {}
                 Layer::WideInline(n, m) => {
                     s.push('{');
                     for i in 0..*n {
@@ -384,6 +399,17 @@ fn pair_recipes() -> Vec<Recipe> {
             v.push(Recipe { header: None, key: 1, layers: vec![Layer::Array(a), Layer::Inline(b, 1)] });
             v.push(Recipe { header: None, key: 1, layers: vec![Layer::Inline(a, 1), Layer::Array(b)] });
             v.push(Recipe { header: None, key: 1, layers: vec![Layer::Array(a), Layer::Mixed(b)] });
+        }
+    }
+    // every level of the header path an array of tables, then more nesting inside the element
+    for &c in &[2usize, 40, 78, 79, 80, 81] {
+        v.push(Recipe { header: None, key: 1, layers: vec![Layer::AotChain(c)] });
+        for &b in &[40usize, 78, 79] {
+            v.push(Recipe { header: None, key: b, layers: vec![Layer::AotChain(c)] });
+            v.push(Recipe { header: None, key: b, layers: vec![Layer::AotChain(c), Layer::Array(78)] });
+            v.push(Recipe { header: None, key: b, layers: vec![Layer::AotChain(c), Layer::Inline(78, 1)] });
+            v.push(Recipe { header: None, key: b, layers: vec![Layer::AotChain(c), Layer::Inline(79, 1)] });
+            v.push(Recipe { header: None, key: b, layers: vec![Layer::AotChain(c), Layer::Mixed(78)] });
         }
     }
     // the deepest additive combinations below each single limit
